@@ -344,6 +344,37 @@ theorem differ_iff {a b : AList} : differ a b = true ↔ ∃ v, a.lookup v ≠ b
     simp only [List.mem_append, not_or] at hn
     exact h (by rw [lookup_none_of_not_mem hn.1, lookup_none_of_not_mem hn.2])
 
+theorem pairwiseDistinct_iff' (ms : List AList) :
+    pairwiseDistinct ms = true ↔ ms.Pairwise (fun a b => ∃ v, a.lookup v ≠ b.lookup v) := by
+  induction ms with
+  | nil => simp [pairwiseDistinct]
+  | cons a ms ih =>
+    simp only [pairwiseDistinct, Bool.and_eq_true, List.all_eq_true, differ_iff, ih, List.pairwise_cons]
+
+theorem nodupNat_iff (xs : List Nat) : nodupNat xs = true ↔ xs.Pairwise (· ≠ ·) := by
+  induction xs with
+  | nil => simp [nodupNat]
+  | cons a r ih =>
+    simp only [nodupNat, Bool.and_eq_true, List.all_eq_true, bne_iff_ne, ih, List.pairwise_cons]
+    constructor
+    · rintro ⟨h1, h2⟩; exact ⟨fun b hb => (h1 b hb).symm, h2⟩
+    · rintro ⟨h1, h2⟩; exact ⟨fun b hb => (h1 b hb).symm, h2⟩
+
+theorem fastDistinct_sound {vs : List Nat} {ms : List AList} (h : fastDistinct vs ms = true) :
+    ms.Pairwise (fun a b => ∃ v, a.lookup v ≠ b.lookup v) := by
+  unfold fastDistinct at h
+  rw [nodupNat_iff, List.pairwise_map] at h
+  refine h.imp ?_
+  intro a b hne
+  apply Classical.byContradiction
+  intro hall
+  apply hne
+  have : (fun v => a.lookup v) = (fun v => b.lookup v) := by
+    funext v
+    apply Classical.byContradiction
+    intro hv; exact hall ⟨v, hv⟩
+  rw [this]
+
 /-! ### enumerator -/
 
 theorem litTrue_natCast {σ : Asg} {v : Nat} (hv : v ≠ 0) : litTrue σ (v : Int) = σ v := by
